@@ -106,6 +106,7 @@ class RunBundler:
         self._sequence_counters: dict[Any, int] = dict()  # noqa: C408
         self._sequence_counters_copy: dict[Any, int] = dict()  # for if we redo data-points  # noqa: C408
         self._monitor_params: dict[Subscribable, tuple[Callback, dict]] = dict()  # noqa: C408  # cache of {obj: (cb, kwargs)}
+        self._monitor_suspensions = 0  # pauses/suspensions that currently silence the monitors
         # a cache of stream_resource uid to the data_keys that stream_resource collects for
         self._stream_resource_data_keys: dict[str, Iterable[str]] = dict()  # noqa: C408
         self.run_is_open = False
@@ -464,7 +465,8 @@ class RunBundler:
 
         self._monitor_params[obj] = emit_event, kwargs
         # TODO: deprecate **kwargs when Ophyd.v2 is available
-        obj.subscribe(emit_event, **kwargs)
+        if not self._monitor_suspensions:
+            obj.subscribe(emit_event, **kwargs)
 
     def record_interruption(self, content):
         """
@@ -628,12 +630,20 @@ class RunBundler:
         self.reset_checkpoint_state()
 
     async def suspend_monitors(self):
-        for obj, (cb, kwargs) in self._monitor_params.items():  # noqa: B007
-            obj.clear_sub(cb)
+        # Pauses and suspensions may overlap: only the first one unsubscribes ...
+        if not self._monitor_suspensions:
+            for obj, (cb, kwargs) in self._monitor_params.items():  # noqa: B007
+                obj.clear_sub(cb)
+        self._monitor_suspensions += 1
 
     async def restore_monitors(self):
-        for obj, (cb, kwargs) in self._monitor_params.items():
-            obj.subscribe(cb, **kwargs)
+        # ... and only the end of the last one subscribes again (never without a matching suspend).
+        if not self._monitor_suspensions:
+            return
+        self._monitor_suspensions -= 1
+        if not self._monitor_suspensions:
+            for obj, (cb, kwargs) in self._monitor_params.items():
+                obj.subscribe(cb, **kwargs)
 
     async def clear_checkpoint(self, msg):
         self._sequence_counters_copy.clear()
